@@ -289,7 +289,8 @@ func main() {
 	e2e := flag.String("e2e", "", "write end-to-end play inputs into this directory")
 	e2eN := flag.Int("e2e-n", 12, "")
 	e2eCheck := flag.String("e2echeck", "", "evaluate the plays under this directory")
-	e2eImm := flag.Bool("e2e-immediate", false, "every second actor's SIGHUP handler exits right after its last line")
+	e2eImm := flag.Bool("e2e-immediate", false, "every SIGHUP handler exits right after its last line")
+	e2eSmall := flag.Bool("e2e-small", false, "plays with few lines")
 	replay := flag.String("replay", "", "replay file written by the check (in-process cases)")
 	flag.Parse()
 	if *replay != "" {
@@ -298,7 +299,7 @@ func main() {
 	}
 	rng := vh.Rng(*seed)
 	if *e2e != "" {
-		writeE2E(rng, *e2e, *e2eN, *e2eImm)
+		writeE2E(rng, *e2e, *e2eN, *e2eImm, *e2eSmall)
 		return
 	}
 	if *e2eCheck != "" {
